@@ -58,6 +58,8 @@ fn cmd_replay(args: &[String]) -> i32 {
     let cases = arg_val(args, "--cases").expect("--cases");
     let out = arg_val(args, "--out").expect("--out");
     let dump = arg_val(args, "--dump-obs");
+    let mut hooks = arg_val(args, "--hooks").map(|p| BufWriter::new(std::fs::File::create(p).unwrap()));
+    let hooks_every: u64 = arg_val(args, "--hooks-every").map(|x| x.parse().unwrap()).unwrap_or(1);
     let mut cache = Cache::new(defs);
     let mut mm = BufWriter::new(std::fs::File::create(&out).unwrap());
     let mut dumpw = dump.map(|p| BufWriter::new(std::fs::File::create(p).unwrap()));
@@ -94,6 +96,12 @@ fn cmd_replay(args: &[String]) -> i32 {
             }
         };
         let comp = case.get("comp").and_then(J::as_u64).map(|c| c as usize);
+        #[cfg(bpaf_verif)]
+        let record = hooks.is_some() && n % hooks_every == 0;
+        #[cfg(bpaf_verif)]
+        if record {
+            bpaf::verif::start();
+        }
         let o = run(
             b,
             &argv,
@@ -102,6 +110,13 @@ fn cmd_replay(args: &[String]) -> i32 {
                 comp,
             },
         );
+        #[cfg(bpaf_verif)]
+        if let (Some(h), true) = (hooks.as_mut(), record) {
+            for e in bpaf::verif::take() {
+                writeln!(h, "{}", e).unwrap();
+            }
+            writeln!(h, "{}", json!({"e":"end","class":o.class,"run":n})).unwrap();
+        }
         let got = project(&b.def, &o);
         n += 1;
         *classes.entry(o.class.to_string()).or_default() += 1;
@@ -133,6 +148,9 @@ fn cmd_replay(args: &[String]) -> i32 {
     mm.flush().unwrap();
     if let Some(w) = dumpw.as_mut() {
         w.flush().unwrap();
+    }
+    if let Some(h) = hooks.as_mut() {
+        h.flush().unwrap();
     }
     println!("{}", json!({"cases":n,"mismatches":bad,"classes":classes}));
     0
